@@ -11,7 +11,8 @@ TRUSTED_BASE = [
     "tools/translate_schema.py (transaction-macro uses per function, macro expansions, schema) with the `decide` link theorems of Model/StoreSchema.lean",
     "SQLite's transaction semantics as modelled: BEGIN fails inside a transaction, ROLLBACK restores the BEGIN snapshot, `rollback to s` restores "
     "the innermost savepoint's snapshot and keeps the savepoint (assumed; sqlite3_get_autocommit and the raw dump are observed after every op)",
-    "harness/x_store.c, tools/gen/store.py (50% failing ops, each failure kind x offending position, inside and outside an iterator), lean/Driver/Fam/Store.lean",
+    "harness/x_store.c, tools/gen/store.py (50% failing ops, each failure kind x offending position, inside and outside an iterator; every combination of "
+    "{nested-savepoint call inside an open iterator} x {1..3 successful updates} x {failing iterator call} x {close, abort}), lean/Driver/Fam/Store.lean",
 ]
 ASSUMPTIONS = ["prepared-statement recycling (PREPARE_STMT/DROP_STMT) is abstracted away: a statement is always usable; a stale statement would show as a "
                "later call failing in the correspondence run"]
@@ -21,7 +22,7 @@ PARTIAL = [
     "loop is gone) still updates the handle's cached category (loop.c:232; the model follows the C). Through a valid handle the handle is "
     "unchanged (C05_failed_set_category_keeps_handle); the stale-handle call is out of contract (Model/StoreContract inContract)",
     "C05_atomic speaks about the relational content, the BEGIN snapshot and the savepoint stack (left-over savepoints are snapshots of the "
-    "unchanged content); the abstraction to the documented model (absW) of a failed in-contract call is covered by C04_refines for 24 of 31 ops",
+    "unchanged content); the abstraction to the documented model (absW) of a failed in-contract call is covered by C04_refines for all 31 ops (the spec functions return their state unchanged on every failure by inspection of Spec/StoreSpec; not stated as a theorem of its own)",
 ]
 LEVEL_TEXT = ("Proof: for EVERY op of the model (31 ops, arbitrary argument lists — so the offending element at every position — inside or outside "
               "an open iterator's transaction) a non-OK result leaves the content, the BEGIN snapshot and the autocommit status of every CIF unchanged.")
